@@ -6,11 +6,13 @@ import sys
 sys.path.insert(0, os.path.dirname(os.path.dirname(os.path.abspath(__file__))))
 import core  # noqa: E402
 import translate as T  # noqa: E402
+import nixcases  # noqa: E402
 from coqlit import cstr, cZ, clist  # noqa: E402
 
 ID = "C11"
 THEOREMS = ["c11_gate_rw", "c11_gate_ro", "c11_gate_format", "c11_gate_malformed", "c11_ro_missing",
-            "c11_overwrite", "c11_rw_keeps", "c11_ro_keeps", "c11_rw_creates_missing"]
+            "c11_overwrite", "c11_rw_keeps", "c11_ro_keeps", "c11_rw_creates_missing",
+            "c11_ro_immutable", "c11_ro_mutators_fail", "c11_ro_reads_equal"]
 HEADER = "From NixV Require Import Base.Prelude Gen.FileConsts Pure.Version Pure.VersionCheck.\n"
 MODE = {"r": "RO", "a": "RW", "w": "OW"}
 OUT = {"opened": "Opened", "invalidfile": "EInvalidFile", "runtime": "ERuntime", "type": "EType"}
@@ -26,7 +28,7 @@ def header_lit(fmt, ver, idst):
 def run(ctx):
     rnd = random.Random(ctx.seed)
     thorough = ctx.tier == "thorough"
-    st = core.proof_stage(ctx, ["FileConsts"], ["Pure/VersionCheck.vo", "Props/C11.vo"], "Props/C11.v", THEOREMS)
+    st = core.proof_stage(ctx, ["FileConsts"], ["Pure/VersionCheck.vo", "Nix/Check.vo", "Props/C11.vo"], "Props/C11.v", THEOREMS)
     ctx.trusted_base = [
         "Coq 8.16.1 kernel; no native_compute",
         "harness/translate.py section FileConsts: HDF_FF_VERSION, FILE_FORMAT, FileMode letters by import; the literal of "
@@ -120,6 +122,34 @@ def run(ctx):
                 disagreements.append((inputs[i], results[i]))
     else:
         st["broken"].append("model Pure/VersionCheck.v does not build against the regenerated constants")
+    # ---- read-only sessions on files built by random histories: every op of the alphabet is
+    # attempted through the real API; results and walks must be the model's; the bytes on disk
+    # must not change during a read-only session
+    nh = 400 if thorough else 60
+    hists = ctx.run_impl("nixrun.py", {"seed": ctx.seed, "n": nh, "len": 30 if thorough else 24,
+                                       "profile": {"readonly_reopen": True, "weights": {"reopen": 2.5}}})
+    ro_ops = 0
+    ro_refused = 0
+    for k, h in enumerate(hists):
+        readonly = False
+        for op, res in zip(h["ops"], h["results"]):
+            if op[0] == "reopen":
+                readonly = bool(op[1])
+            elif readonly:
+                ro_ops += 1
+                if res[0] == "err":
+                    ro_refused += 1
+        if h["ro_violations"]:
+            failures.append(("bytes on disk changed during a read-only session", {"history": h["ops"]}, {"outcome": "changed", "at_steps": h["ro_violations"]}))
+    if core.vo_ok("Nix/Check.v"):
+        bad, errs = nixcases.check_histories(ctx, hists, False, tag="ro")
+        for e in errs:
+            st["broken"].append("model evaluation failed: %s" % e)
+        for i, step, what in bad:
+            disagreements.append(({"history": hists[i]["ops"][:step + 1], "differs": what, "step": step},
+                                  {"outcome": hists[i]["results"][step]}))
+    else:
+        st["broken"].append("model Nix/Check.v does not build")
     if failures:
         failures.sort(key=lambda x: len(repr(x[1])))
         what, inp, r = failures[0]
@@ -131,7 +161,8 @@ def run(ctx):
         st["broken"].append("correspondence: model and implementation disagree on %d headers, e.g. %r -> %r"
                             % (len(disagreements), disagreements[0][0], disagreements[0][1].get("outcome")))
     ctx.coverage.update({
-        "evaluations": len(cases) + 3,
+        "evaluations": len(cases) + 3 + len(hists),
+        "readonly_histories": len(hists), "ops_in_readonly_sessions": ro_ops, "of_which_refused": ro_refused,
         "distinct_nontrivial": len(set(repr(c) for c in cases)),
         "rule": "crafted files (a real NIX file with a block, an array and a section whose header attributes are rewritten "
                 "with h5py): version triples {0..3}^3 and the 27 neighbours of the library version x 3 modes x id "
